@@ -168,6 +168,7 @@ def gap_edits(toks, full=True):
     return out
 
 
+_base = [None]
 _sep_memo = {}
 
 
@@ -188,6 +189,16 @@ def check(res, text, expected, family, toks, at, base_text):
     res.count('rewritten_texts')
     res.count('fam_' + family.split(':')[0])
     if r[0] == 'ok' and r[1] == expected:
+        if family == 'base':
+            _base[0] = (expected, e1.realmod.full_dump(R.last_tree))
+        elif _base[0] is not None and _base[0][0] is expected:
+            # same neutral tree: the nodes must also agree in every attribute (fields excluded from == included)
+            d2 = e1.realmod.full_dump(R.last_tree)
+            if d2 != _base[0][1]:
+                res.violation(f'{family.split(":")[0]}:node-attributes', f'insignificant rewrite ({family}) changes attributes of the tree nodes '
+                              '(the trees compare equal)', {'original': base_text, 'rewritten': text, 'expected': repr(_base[0][1])[:300],
+                                                            'observed': repr(d2)[:300]})
+                return False
         root = expected[1][0] if expected[0] == 'code' and expected[1] else expected
         res.outcome('%s:%s:%s' % (family.split(':')[0], root[0], root[2][0] if len(root) > 2 and isinstance(root[2], tuple) else ''))
         return True
@@ -404,8 +415,10 @@ def main(tier, seed, t0):
 def replay(w):
     R = e1.get_real()
     a = R.parse(w['original'])
+    da = e1.realmod.full_dump(R.last_tree) if a[0] == 'ok' else None
     b = R.parse(w['rewritten'])
-    same = a[0] == 'ok' and b[0] == 'ok' and a[1] == b[1]
+    db = e1.realmod.full_dump(R.last_tree) if b[0] == 'ok' else None
+    same = a[0] == 'ok' and b[0] == 'ok' and a[1] == b[1] and da == db
     if 'sep' in w.get('family', '') or '\n' in w['original']:
         pass
     return ('HOLDS' if same else 'REPRODUCED') + f"\n original={w['original']!r} -> {a[:2]!r}\n rewritten={w['rewritten']!r} -> {b[:2]!r}"
